@@ -431,6 +431,11 @@ pub fn build_catalogue() -> Vec<Subject> {
         Arc<[Tr1; 2]> [mem]; Box<Tr3> [mem]; Box<[Tr4; 2]> [mem]; Box<WithCompact> [mem]; [SingleCompact; 2] [mem]; Box<UsesCa> [mem]; [EnumSkip; 2] [mem]; Box<EnumData> [mem];
         // tuples led by a collection (DecodeLength delegates to the first member)
         (Vec<u32>, u8) [mem, len]; (BTreeMap<u8, u8>,) [mem, len]; (VecDeque<u16>, String, u8) [mem, len]; (LinkedList<u16>, u8) [mem, len]; (BTreeSet<u16>, Vec<u8>) [mem, len]; (BinaryHeap<u32>, bool) [mem, len]; (Vec<()>, u32) [mem, len];
+        // more shapes
+        Cow<'static, [u32]>; Arc<String> [mem]; Option<NonZeroU32> [mem]; Vec<NonZeroU8> [mem, len]; BTreeSet<(u8, u8)> [mem, len]; BTreeMap<String, BTreeMap<u8, u8>> [mem, len];
+        LinkedList<LinkedList<u8>> [mem, len]; VecDeque<VecDeque<u16>> [mem, len]; BinaryHeap<(u8, u8)> [mem, len]; BinaryHeap<Vec<u8>> [mem, len]; Vec<Compact<u8>> [mem, len]; Result<(), ()> [mem]; Option<()> [mem]; Option<Vec<()>> [mem];
+        [[u8; 0]; 3] [mem]; [u8; 1] [mem]; [u16; 1] [mem]; Box<[u8; 0]> [mem]; [f32; 5] [mem]; [i8; 6] [mem]; [u64; 2] [mem]; [i128; 2] [mem]; GenericS<EnumData> [mem]; Vec<GenericE<u32>> [mem, len]; Vec<WithCompact> [mem, len]; Vec<WithSkip> [mem, len]; BTreeMap<u8, Tr4> [mem, len];
+        Box<Box<u16>> [mem]; Rc<Rc<Vec<u8>>> [mem]; Option<Option<Option<u8>>> [mem]; Vec<Result<u8, u16>> [mem, len]; (Option<u8>, Result<u16, u8>, OptionBool) [mem]; Vec<[u8; 3]> [mem, len]; Vec<[u16; 2]> [mem, len]; VecDeque<[u8; 3]> [mem, len];
         // nestings
         Vec<EnumData> [mem, len]; Option<Box<StructNamed>> [mem]; BTreeMap<u16, EnumIdx> [mem, len]; (Vec<u8>, Vec<u16>) [mem, len];
         Vec<Vec<Vec<u32>>> [mem, len]; Vec<Tree> [mem, len]; Box<Tr2> [mem]; Vec<Tr1> [mem, len]; LinkedList<Vec<u16>> [mem, len];
